@@ -8,7 +8,7 @@ Local Open Scope N_scope.
 Theorem sync_round_commits_final powers lru (correct : list (N * N)) acts leader fresh root round :
   NoDup (map fst correct) ->
   Forall (fun e => fst e < N.of_nat (length powers)) correct ->
-  2 * total powers < two64 ->
+  total powers < two64 ->
   3 * byz_power powers (map fst correct) < total powers ->
   Forall (fun e => lru <= snd e) correct ->
   run_ok powers lru (init_net correct) acts ->
@@ -27,7 +27,7 @@ Qed.
 Theorem sync_round_commits_highest_lock_final powers lru (correct : list (N * N)) acts leader fresh root round i r l :
   NoDup (map fst correct) ->
   Forall (fun e => fst e < N.of_nat (length powers)) correct ->
-  2 * total powers < two64 ->
+  total powers < two64 ->
   3 * byz_power powers (map fst correct) < total powers ->
   Forall (fun e => lru <= snd e) correct ->
   run_ok powers lru (init_net correct) acts ->
